@@ -2,7 +2,7 @@
    forest ([outline_ok] of Spec/OutlineSpec.v) get_outlines terminates within |forest| units of fuel
    and get_toc returns the preorder of the forest.
    Main results: [walk_items], [setup_outs], [toc_of_outline]. *)
-From LV Require Import Base.Bytes Model.Obj Model.DocQ Model.PageTree Model.Outline Model.Toc
+From LV Require Import Base.Bytes Model.Obj Model.DocQ Model.PageTree Model.Outline Model.Toc Gen.QueryC
   Spec.OutlineSpec Proofs.OutlineProofs Proofs.OutlineProofsTitle.
 
 Local Open Scope N_scope.
@@ -49,44 +49,61 @@ Qed.
 Lemma items_ok_head get p prev t r : items_ok get p prev (t :: r) -> exists d, get (o_id t) = Some d.
 Proof. intro H. inversion H; subst. eexists; eassumption. Qed.
 
-Lemma walk_S f m node :
-  walk (S f) m node =
-    match get_outline m node with
-    | RPanic => WPanic
-    | r =>
-      let item := match r with ROk (Some o) => [o] | _ => [] end in
-      let sub : wres (list outline) :=
-        match dict_get node K_First with
-        | None => WOk []
-        | Some first =>
-          let fd := match first with
-                    | ODict d => Some d
-                    | ORef i g => get_dictionary m (i, g)
-                    | _ => None
-                    end in
-          match fd with
-          | None => WErr
-          | Some d =>
-            match walk f m d with
-            | WOk [] => WOk []
-            | WOk subs => WOk [OSub subs]
-            | e => e
-            end
+Definition walk_sub (f : nat) (m : objmap) (node : dict) (budget depth : N) : wres (list outline * N) :=
+  match dict_get node K_First with
+  | None => WOk ([], budget)
+  | Some first =>
+    if (OUTLINE_DEPTH_LIMIT <=? depth)%N then WErr
+    else
+      let fd : option (dict * N) :=
+        match first with
+        | ODict d => Some (d, budget)
+        | ORef i g =>
+          match follow_ref budget with
+          | None => None
+          | Some b1 => match get_dictionary m (i, g) with Some d => Some (d, b1) | None => None end
           end
+        | _ => None
         end in
-      match sub with
-      | WOk s =>
-        match get_dict_in_dict m node K_Next with
-        | Some n =>
-          match walk f m n with
-          | WOk r => WOk (item ++ s ++ r)
-          | e => e
-          end
-        | None => WOk (item ++ s)
+      match fd with
+      | None => WErr
+      | Some (d, b1) =>
+        match walk f m d b1 (depth + 1) with
+        | WOk ([], b2) => WOk ([], b2)
+        | WOk (subs, b2) => WOk ([OSub subs], b2)
+        | e => e
         end
-      | e => e
       end
-    end.
+  end.
+
+Definition walk_rest (f : nat) (m : objmap) (node : dict) (item : list outline) (depth : N)
+           (sub : wres (list outline * N)) : wres (list outline * N) :=
+  match sub with
+  | WOk (s, b2) =>
+    let nb : option N :=
+      match dict_get node K_Next with
+      | Some (ORef _ _) => follow_ref b2
+      | _ => Some b2
+      end in
+    match nb with
+    | None => WErr
+    | Some b3 =>
+      match get_dict_in_dict m node K_Next with
+      | Some n =>
+        match walk f m n b3 depth with
+        | WOk (r, b4) => WOk (item ++ s ++ r, b4)
+        | e => e
+        end
+      | None => WOk (item ++ s, b3)
+      end
+    end
+  | e => e
+  end.
+
+Lemma walk_S f m node budget depth :
+  walk (S f) m node budget depth =
+  walk_rest f m node (match get_outline m node with ROk (Some o) => [o] | _ => [] end) depth
+            (walk_sub f m node budget depth).
 Proof. reflexivity. Qed.
 
 Lemma ofsize_cons t r : ofsize (t :: r) = (osize t + ofsize r)%nat.
@@ -94,46 +111,72 @@ Proof. reflexivity. Qed.
 Lemma osize_node i a bd ks : osize (ONode i a bd ks) = S (ofsize ks).
 Proof. reflexivity. Qed.
 
+(* height of the numbered forest: a single item has height 1 *)
+Fixpoint oheight (t : otree) : nat :=
+  match t with ONode _ _ _ ks => S (fold_right (fun k acc => Nat.max (oheight k) acc) 0%nat ks) end.
+Definition ofheight (l : list otree) : nat := fold_right (fun k acc => Nat.max (oheight k) acc) 0%nat l.
+Lemma ofheight_cons t r : ofheight (t :: r) = Nat.max (oheight t) (ofheight r).
+Proof. reflexivity. Qed.
+Lemma oheight_node i a bd ks : oheight (ONode i a bd ks) = S (ofheight ks).
+Proof. reflexivity. Qed.
+
+Lemma follow_ref_pos b : 0 < b -> follow_ref b = Some (b - 1).
+Proof. intro H. unfold follow_ref. replace (b =? 0) with false by (symmetry; apply N.eqb_neq; lia). reflexivity. Qed.
+
 (* the First/Next walk started at the head of a sibling list returns the outlines of the whole
-   list; one unit of fuel per item suffices *)
-Lemma walk_items m : forall fuel l p prev,
+   list.  One unit of fuel per item suffices; every item but the head costs one reference of the
+   budget; the nesting stays within OUTLINE_DEPTH_LIMIT when the forest is not higher than
+   OUTLINE_DEPTH_LIMIT + 1 - depth. *)
+Lemma walk_items m : forall fuel l p prev budget depth,
   items_ok (get_of m) p prev l -> (ofsize l <= fuel)%nat ->
+  N.of_nat (ofsize l) <= budget + 1 ->
+  depth + N.of_nat (ofheight l) <= OUTLINE_DEPTH_LIMIT + 1 ->
   match l with
   | [] => True
-  | t :: _ => forall d, get_of m (o_id t) = Some d -> walk fuel m d = WOk (flat_map outs_of l)
+  | t :: _ => forall d, get_of m (o_id t) = Some d ->
+                        walk fuel m d budget depth = WOk (flat_map outs_of l, budget + 1 - N.of_nat (ofsize l))
   end.
 Proof.
-  induction fuel as [|f IH]; intros l p prev Hio Hsz.
+  induction fuel as [|f IH]; intros l p prev budget depth Hio Hsz Hbud Hdep.
   - destruct l as [|[i a bd ks] r]; [exact I|]. rewrite ofsize_cons, osize_node in Hsz. lia.
   - destruct l as [|[id info bd kids] rest]; [exact I|]. intros d Hd.
     inversion Hio as [|parent prev0 id0 info0 bd0 kids0 rest0 d0 a Hd0 Hi Ha Hao Hk Hr]; subst.
     cbn [o_id] in Hd. rewrite Hd0 in Hd. inversion Hd; subst d0. clear Hd.
-    rewrite ofsize_cons, osize_node in Hsz.
-    rewrite walk_S, (get_outline_item m d _ _ _ _ _ _ a Hi Ha Hao). cbv zeta.
-    rewrite (io_first _ _ _ _ _ _ _ Hi).
+    rewrite ofsize_cons, osize_node in Hsz, Hbud.
+    rewrite ofheight_cons, oheight_node in Hdep.
+    rewrite walk_S, (get_outline_item m d _ _ _ _ _ _ a Hi Ha Hao).
     (* children *)
-    assert (Hsub : match oref (head_id kids) with
-                   | None => WOk []
-                   | Some first =>
-                     match match first with ODict d => Some d | ORef i g => get_dictionary m (i, g) | _ => None end with
-                     | None => WErr
-                     | Some d => match walk f m d with WOk [] => WOk [] | WOk subs => WOk [OSub subs] | e => e end
-                     end
-                   end = WOk (wrap (flat_map outs_of kids))).
-    { destruct kids as [|k ks]; [reflexivity|].
+    assert (Hsub : walk_sub f m d budget depth
+                   = WOk (wrap (flat_map outs_of kids), budget - N.of_nat (ofsize kids))).
+    { unfold walk_sub. rewrite (io_first _ _ _ _ _ _ _ Hi).
+      destruct kids as [|k ks]; [cbn [head_id oref option_map flat_map wrap ofsize fold_right]; rewrite N.sub_0_r; reflexivity|].
       destruct (items_ok_head _ _ _ _ _ Hk) as [dk Hdk].
-      cbn [head_id oref option_map]. rewrite (get_dictionary_of _ _ _ Hdk).
-      pose proof (IH (k :: ks) id None Hk ltac:(lia) dk Hdk) as W. rewrite W.
-      rewrite wrap_cons. destruct k. reflexivity. }
-    rewrite Hsub.
+      assert (Hpos : (1 <= ofsize (k :: ks))%nat) by (destruct k; rewrite ofsize_cons, osize_node; lia).
+      assert (Hh : (1 <= ofheight (k :: ks))%nat) by (destruct k; rewrite ofheight_cons, oheight_node; lia).
+      cbn [head_id oref option_map].
+      replace (OUTLINE_DEPTH_LIMIT <=? depth) with false by (symmetry; apply N.leb_gt; lia).
+      cbv zeta. rewrite follow_ref_pos by lia. rewrite (get_dictionary_of _ _ _ Hdk).
+      assert (A1 : (ofsize (k :: ks) <= f)%nat) by lia.
+      assert (A2 : N.of_nat (ofsize (k :: ks)) <= budget - 1 + 1) by lia.
+      assert (A3 : depth + 1 + N.of_nat (ofheight (k :: ks)) <= OUTLINE_DEPTH_LIMIT + 1) by lia.
+      pose proof (IH (k :: ks) id None (budget - 1) (depth + 1) Hk A1 A2 A3 dk Hdk) as W.
+      rewrite W. rewrite wrap_cons. destruct k. cbn [flat_map outs_of app]. f_equal. f_equal. lia. }
+    rewrite Hsub. unfold walk_rest. rewrite (io_next _ _ _ _ _ _ _ Hi).
     (* next sibling *)
     destruct rest as [|n r].
-    + rewrite (gdd_none m d K_Next) by (rewrite (io_next _ _ _ _ _ _ _ Hi); reflexivity).
-      cbn [flat_map outs_of]. rewrite app_nil_r. reflexivity.
+    + cbn [head_id oref option_map].
+      rewrite (gdd_none m d K_Next) by (rewrite (io_next _ _ _ _ _ _ _ Hi); reflexivity).
+      cbn [flat_map outs_of ofsize fold_right]. rewrite app_nil_r, osize_node. f_equal. f_equal. lia.
     + destruct (items_ok_head _ _ _ _ _ Hr) as [dn Hdn].
+      assert (Hpos : (1 <= ofsize (n :: r))%nat) by (destruct n; rewrite ofsize_cons, osize_node; lia).
+      cbn [head_id oref option_map]. rewrite follow_ref_pos by lia.
       rewrite (gdd_ref m d K_Next (o_id n) dn) by (rewrite ?(io_next _ _ _ _ _ _ _ Hi); first [reflexivity | exact Hdn]).
-      pose proof (IH (n :: r) p (Some id) Hr ltac:(lia) dn Hdn) as W. rewrite W.
-      reflexivity.
+      assert (A1 : (ofsize (n :: r) <= f)%nat) by lia.
+      assert (A2 : N.of_nat (ofsize (n :: r)) <= budget - N.of_nat (ofsize kids) - 1 + 1) by lia.
+      assert (A3 : depth + N.of_nat (ofheight (n :: r)) <= OUTLINE_DEPTH_LIMIT + 1) by lia.
+      pose proof (IH (n :: r) p (Some id) (budget - N.of_nat (ofsize kids) - 1) depth Hr A1 A2 A3 dn Hdn) as W.
+      rewrite W. cbn [flat_map outs_of app]. f_equal. f_equal.
+      rewrite (ofsize_cons (ONode id info bd kids) (n :: r)), osize_node. lia.
 Qed.
 
 (* ---------- setup_outline_page_ids ---------- *)
@@ -251,18 +294,21 @@ Theorem toc_of_outline d cat root (f : list otree) fuel :
   outline_ok (get_of (d_objects d)) root f ->
   f <> [] ->
   (ofsize f <= fuel)%nat ->
+  (ofsize f <= S (length (d_objects d)))%nat ->
+  (N.of_nat (ofheight f) <= OUTLINE_DEPTH_LIMIT + 1) ->
   NoDup (map row_key (flat_map (orows 1) f)) ->
   Forall (row_ok (get_pages d)) (flat_map (orows 1) f) ->
   get_toc fuel d = TOk (map (entry_of (get_pages d)) (flat_map (orows 1) f)) 0.
 Proof.
-  intros Hcat Hout [Hd Hn] [Hitems [od [Hod [Hfirst _]]]] Hne Hfuel Hnd Hrows.
+  intros Hcat Hout [Hd Hn] [Hitems [od [Hod [Hfirst _]]]] Hne Hfuel Hbud Hdep Hnd Hrows.
   unfold get_toc, get_outlines_top. rewrite Hcat.
   rewrite (gdd_ref _ cat K_Outlines root od Hout Hod).
   destruct f as [|t r]; [congruence|].
   destruct (items_ok_head _ _ _ _ _ Hitems) as [dt Hdt].
   rewrite (gdd_ref _ od K_First (o_id t) dt Hfirst Hdt).
   unfold named_tree. rewrite (gdd_none _ cat K_Dests Hd), (gdd_none _ cat K_Names Hn).
-  rewrite (walk_items (d_objects d) fuel (t :: r) root None Hitems Hfuel dt Hdt).
+  rewrite (walk_items (d_objects d) fuel (t :: r) root None (N.of_nat (length (d_objects d))) 0 Hitems Hfuel
+             ltac:(lia) ltac:(lia) dt Hdt).
   rewrite (setup_outs (ofsize (t :: r)) (t :: r) [] 1 (le_n _)).
   rewrite ix_all_distinct by exact Hnd. cbn [app].
   rewrite (toc_rows_ok _ _ Hrows). reflexivity.
